@@ -27,10 +27,14 @@ Proof. intros Ha Hb E.
   split; [exact A|]. rewrite A in E. rewrite <- E. ring. Qed.
 Lemma sqr_zero x : x * x = 0 -> x = 0.
 Proof. intros E. apply (sum_sqr_zero F x 0). rewrite E. ring. Qed.
+Lemma sumn_nonneg_zero n (f : nat -> F) : (forall i, (i < n)%nat -> 0 <= f i) -> sumn n f = 0 ->
+  forall i, (i < n)%nat -> f i = 0.
+Proof. induction n as [|n IH]; intros Hf E i Hi; [lia|]. cbn [sumn] in E.
+  destruct (nonneg_sum_zero _ _ (sumn_nonneg n f (fun j Hj => Hf j (Nat.lt_lt_succ_r _ _ Hj))) (Hf n (Nat.lt_succ_diag_r n)) E) as [E1 E2].
+  destruct (Nat.eq_dec i n) as [->|Hne]; [exact E2|]. apply IH; [intros; apply Hf; lia|exact E1|lia]. Qed.
 Lemma sumn_sqr_zero n (f : nat -> F) : sumn n (fun i => f i * f i) = 0 -> forall i, (i < n)%nat -> f i = 0.
-Proof. induction n as [|n IH]; intros E i Hi; [lia|]. cbn [sumn] in E.
-  destruct (nonneg_sum_zero _ _ (sumn_nonneg n _ (fun j _ => sqr_nonneg F (f j))) (sqr_nonneg F (f n)) E) as [E1 E2].
-  destruct (Nat.eq_dec i n) as [->|Hne]; [now apply sqr_zero|apply IH; [exact E1|lia]]. Qed.
+Proof. intros E i Hi. apply sqr_zero.
+  exact (sumn_nonneg_zero n (fun i => f i * f i) (fun j _ => sqr_nonneg F (f j)) E i Hi). Qed.
 Lemma le_antisym_eq a b : a <= b -> b <= a -> a = b. Proof. apply (k_antisym F). Qed.
 Lemma le_add_nonneg_r a b : 0 <= b -> a <= a + b.
 Proof. intros H. apply (proj2 (le_sub F a (a + b))). replace (a + b - a) with b by ring. exact H. Qed.
@@ -128,19 +132,9 @@ Lemma dist2_sym n A B : dist2 n A B = dist2 n B A.
 Proof. rewrite !dist2_expand, (inner_comm n n B A). ring. Qed.
 Lemma dist2_zero n A B : dist2 n A B = 0 -> meq n n A B.
 Proof. intros E i j Hi Hj. unfold dist2, Mat.inner in E.
-  assert (R := sumn_sqr_zero F n (fun j => msub A B i j)).
-  assert (E1 : sumn n (fun j => msub A B i j * msub A B i j) = 0).
-  { (* every row sum is non-negative and they add up to 0 *)
-    revert i Hi. clear Hj R j.
-    assert (G : forall m, (m <= n)%nat -> sumn m (fun i => sumn n (fun j => msub A B i j * msub A B i j)) = 0 ->
-                forall i, (i < m)%nat -> sumn n (fun j => msub A B i j * msub A B i j) = 0).
-    { induction m as [|m IH]; intros Hm Em i Hi; [lia|]. cbn [sumn] in Em.
-      destruct (nonneg_sum_zero F _ _
-        (sumn_nonneg F m _ (fun a _ => sumn_nonneg F n _ (fun b _ => sqr_nonneg F _)))
-        (sumn_nonneg F n _ (fun b _ => sqr_nonneg F _)) Em) as [E1 E2].
-      destruct (Nat.eq_dec i m) as [->|Hne]; [exact E2|apply IH; [lia|exact E1|lia]]. }
-    apply (G n (le_n n) E). }
-  pose proof (R E1 j Hj) as H. unfold msub in H.
+  pose proof (sumn_nonneg_zero F n _ (fun a _ => sumn_nonneg F n _ (fun b _ => sqr_nonneg F (msub A B a b))) E i Hi) as E1.
+  cbv beta in E1.
+  pose proof (sumn_sqr_zero F n (fun j => msub A B i j) E1 j Hj) as H. unfold msub in H.
   replace (A i j) with (A i j - B i j + B i j) by ring. rewrite H. ring. Qed.
 
 Lemma inner_mid_l n Z : inner n mid Z = mtrace n Z.
@@ -165,7 +159,7 @@ Lemma dist2_split n X Y Z :
   dist2 n Y Z = dist2 n Y X + dist2 n X Z
                 + ((inner n (msub X Y) Z + inner n (msub X Y) Z) - (inner n X (msub X Y) + inner n X (msub X Y))).
 Proof. rewrite !dist2_expand, inner_msub_l, inner_msub_r.
-  rewrite (inner_comm n n Y X), (inner_comm n n Z X), (inner_comm n n Z Y). ring. Qed.
+  rewrite (inner_comm n n Y X). ring. Qed.
 
 (* minimal-hypothesis form *)
 Lemma psd_proj_certificate_min n X Y eps delta :
@@ -177,7 +171,7 @@ Proof. intros HX HY PR Hd Z HZ PZ.
   pose proof (psd_inner_nonneg F n _ Z (shift_sym n eps _ (msub_sym n X Y HX HY)) HZ PR PZ) as H1.
   rewrite inner_shift_l in H1.
   rewrite (dist2_split n X Y Z). apply (proj2 (le_sub F _ _)).
-  match goal with |- 0 <= ?e => replace e with
+  match goal with |- _ <= ?e => replace e with
     ((inner n (msub X Y) Z + eps * mtrace n Z) + (inner n (msub X Y) Z + eps * mtrace n Z)
      + ((delta - inner n X (msub X Y)) + (delta - inner n X (msub X Y)))) by ring end.
   pose proof (proj1 (le_sub F _ _) Hd) as H2.
